@@ -506,8 +506,10 @@ fn run_aclient(sp: &Spec) -> Result<Obs, String> {
         for t in 0..sp.nw {
             let (cl, kind) = (client.clone(), sp.kinds[t]);
             let frames: Vec<Arc<Vec<u8>>> = (0..sp.blens[t].len()).map(|i| intents[&(t as u32, i as u32)].body.clone()).collect();
-            let is_victim = sp.victim == Some(t) && sp.sc == "cancel";
-            let (abort_us, by_timeout, vdelay) = (sp.abort_us, sp.seed % 2 == 1, if sp.victim == Some(t) { sp.vdelay } else { 0 });
+            let is_victim = sp.victim == Some(t) && sp.sc.starts_with("cancel");
+            // "cancelq": the other writers arrive while the victim is stuck inside its frame
+            // write, so they are queued on the writer when the victim is abandoned
+            let (abort_us, by_timeout, vdelay) = (sp.abort_us, sp.seed % 2 == 1, if sp.victim == Some(t) { sp.vdelay } else if sp.sc == "cancelq" { 40 + 7 * t as u64 } else { 0 });
             let h = tokio::spawn(async move {
                 if vdelay > 0 { tokio::time::sleep(Duration::from_millis(vdelay)).await; }
                 let mut out = vec![];
@@ -648,8 +650,10 @@ fn run_wsclient(sp: &Spec) -> Result<Obs, String> {
         for t in 0..sp.nw {
             let (cl, kind) = (client.clone(), sp.kinds[t]);
             let frames: Vec<Arc<Vec<u8>>> = (0..sp.blens[t].len()).map(|i| intents[&(t as u32, i as u32)].body.clone()).collect();
-            let is_victim = sp.victim == Some(t) && sp.sc == "cancel";
-            let (abort_us, by_timeout, vdelay) = (sp.abort_us, sp.seed % 2 == 1, if sp.victim == Some(t) { sp.vdelay } else { 0 });
+            let is_victim = sp.victim == Some(t) && sp.sc.starts_with("cancel");
+            // "cancelq": the other writers arrive while the victim is stuck inside its frame
+            // write, so they are queued on the writer when the victim is abandoned
+            let (abort_us, by_timeout, vdelay) = (sp.abort_us, sp.seed % 2 == 1, if sp.victim == Some(t) { sp.vdelay } else if sp.sc == "cancelq" { 40 + 7 * t as u64 } else { 0 });
             let h = tokio::spawn(async move {
                 if vdelay > 0 { tokio::time::sleep(Duration::from_millis(vdelay)).await; }
                 let mut out = vec![];
@@ -1070,6 +1074,16 @@ fn gen_cases(seed: u64, thorough: bool) -> Vec<String> {
                 let totals: Vec<Vec<usize>> = (0..nw).map(|t| if t == 0 { vec![vsize] } else { (0..rng.range(1, 2)).map(|_| 48 + 16 + rng.below(1500) as usize).collect() }).collect();
                 let abort = match j { 0 => 0, 1 => 300, 2 => 2_000, 3 => 20_000, 4 => 80_000, _ => rng.below(200_000) };
                 out.push(case_line(0, ep, "cancel", &totals, &kinds, 0, 4096, 700, Some(0), abort, rng.below(4), rng.next() & 0xffff_ffff));
+            }
+            // (3') the same, with the other writers already queued behind the victim
+            for j in 0..3 {
+                let nw = rng.range(2, 4) as usize;
+                let mut kinds = kinds_for(&mut rng, ep, nw);
+                for (t, k) in kinds.iter_mut().enumerate() { if t > 0 && j == 0 { *k = 'n'; } }
+                let vsize = 8 * MIB + rng.below(5000) as usize;
+                let totals: Vec<Vec<usize>> = (0..nw).map(|t| if t == 0 { vec![vsize] } else { (0..rng.range(1, 2)).map(|_| 48 + 16 + rng.below(1500) as usize).collect() }).collect();
+                let abort = 150_000 + rng.below(250_000);
+                out.push(case_line(0, ep, "cancelq", &totals, &kinds, 0, 4096, 700, Some(0), abort, 0, rng.next() & 0xffff_ffff));
             }
         }
     }
